@@ -148,6 +148,49 @@ Proof.
 Qed.
 Print Assumptions T_C01_mp_load_save_array_stream.
 
+(* LOADS THAT END IN AN EXCEPTION, over a stream: the load program of ANY class / std::map target on ANY bytes: when the
+   scope model's run in memory ends in the exception se with no scope having failed to close (obj_root_res .. =
+   (toks, Raise se u p, false), see Properties_C03s.v), the scopes over the stream reader make the same reader calls
+   with the same answers and end the same way: the reader's exception of the same class at the same call, or the
+   scopes' own exception (client result Some None).  (That load_tr's LErr e IS the model's Raise (SE e) on the bytes
+   is the memory-side statement that is not proved: T_C03_mp_refines and the *_on_model theorems assume an
+   error-free load.) *)
+Theorem T_C01_mp_load_error_stream : forall narrow widen o K data fuel ms i kvs toks se u p,
+  (8 <= K)%nat -> fits_streamoff data -> bytes_ok data -> (length data < fuel)%nat ->
+  obj_root_res narrow widen o data (class_prog o ms i kvs) = (toks, Raise se u p, false) ->
+  run_obj_root narrow widen o data (class_prog o ms i kvs) = Failed toks se /\
+  mps_client_bsr narrow widen K (stream_of data true) fuel o (scope_client (S (length data)) (class_prog o ms i kvs)) =
+    Ok (str_client_run narrow widen data o (scope_client (S (length data)) (class_prog o ms i kvs))) /\
+  (snd (str_client_run narrow widen data o (scope_client (S (length data)) (class_prog o ms i kvs))) = Some None \/
+   exists e tr op, se = SE e /\
+     str_client_run narrow widen data o (scope_client (S (length data)) (class_prog o ms i kvs)) = (tr ++ [(op, AErrOf e)], None)).
+Proof.
+  intros narrow widen o K data fuel ms i kvs toks se u p HK Hf Hb Hfuel H.
+  split; [rewrite obj_root_res_final, H; reflexivity|]. split.
+  - apply client_on_chunked_stream; try assumption. apply scope_client_seeks_ok.
+  - exact (EC_run narrow widen o data se _
+      (scope_client_fail narrow widen o data K HK Hf Hb (S (length data)) _ toks se u p (Nat.lt_succ_diag_r _) (class_prog_frag o ms i kvs) H)).
+Qed.
+Print Assumptions T_C01_mp_load_error_stream.
+
+Theorem T_C01_mp_load_error_map_stream : forall narrow widen o K data fuel m ks e i kvs toks se u p,
+  (8 <= K)%nat -> fits_streamoff data -> bytes_ok data -> (length data < fuel)%nat ->
+  obj_root_res narrow widen o data (map_prog o m ks e i kvs) = (toks, Raise se u p, false) ->
+  run_obj_root narrow widen o data (map_prog o m ks e i kvs) = Failed toks se /\
+  mps_client_bsr narrow widen K (stream_of data true) fuel o (scope_client (S (length data)) (map_prog o m ks e i kvs)) =
+    Ok (str_client_run narrow widen data o (scope_client (S (length data)) (map_prog o m ks e i kvs))) /\
+  (snd (str_client_run narrow widen data o (scope_client (S (length data)) (map_prog o m ks e i kvs))) = Some None \/
+   exists e0 tr op, se = SE e0 /\
+     str_client_run narrow widen data o (scope_client (S (length data)) (map_prog o m ks e i kvs)) = (tr ++ [(op, AErrOf e0)], None)).
+Proof.
+  intros narrow widen o K data fuel m ks e i kvs toks se u p HK Hf Hb Hfuel H.
+  split; [rewrite obj_root_res_final, H; reflexivity|]. split.
+  - apply client_on_chunked_stream; try assumption. apply scope_client_seeks_ok.
+  - exact (EC_run narrow widen o data se _
+      (scope_client_fail narrow widen o data K HK Hf Hb (S (length data)) _ toks se u p (Nat.lt_succ_diag_r _) (map_prog_frag o m ks e i kvs) H)).
+Qed.
+Print Assumptions T_C01_mp_load_error_map_stream.
+
 (* not vacuous: class { m : std::map<int8_t, vector<string>>; n : std::map<std::string, int32_t> } (ex_map_tree of
    T_C01_mp_map_example), 22 saved bytes on a seekable stream read in chunks of 8: the scopes over the stream reader
    return the tokens load_tr consumes, the reader ends at byte 22 *)
@@ -189,4 +232,5 @@ Print Assumptions T_C01_mp_stream_example_bytes.
 (* NOT stated here:
    - multimaps and sets AT THE ROOT as save-then-load statements (inside a class, a map or a sequence container they are
      covered; at the root T_C01_mp_array_history_over_stream applies to every error-free run of the scope model);
-   - loads that end in an error, non-seekable streams: see Properties_C03s.v. *)
+   - that load_tr's LErr is the scope model's Raise on the bytes (memory side, error-ending loads); error-ending loads in
+     which a scope failed to close; non-seekable streams: see Properties_C03s.v. *)
